@@ -44,36 +44,38 @@ def signed_value_strategy():
 
 def call_strategy(moves=True, extras=True):
     from hypothesis import strategies as st
+    from vf.hist import weighted, equally
     v = value_strategy()
     sv = signed_value_strategy()
     small = st.one_of(st.integers(-20, 20).map(float),
                       st.integers(-160, 160).map(lambda k: k / 8.0))
-    interlock = st.one_of(
-        st.tuples(st.sampled_from(SPIN), v).map(lambda t: C("tool_on", *t)),
-        st.just(C("tool_off")),
-        st.tuples(st.sampled_from(POWER), v).map(lambda t: C("power_on", *t)),
-        st.just(C("power_off")),
-        st.sampled_from(["mist", "flood"]).map(lambda m: C("coolant_on", m)),
-        st.just(C("coolant_off")),
-        st.tuples(st.sampled_from(["manual", "automatic"]), st.integers(1, 99)).map(
-            lambda t: C("tool_change", *t)),
-        st.sampled_from(HALTS).map(lambda m: C("halt", m)),
-        st.tuples(st.sampled_from(["wait-for-bed", "wait-for-hotend", "wait-for-chamber"]),
-                  st.sampled_from(["S", "R", "s", "r"]), sv).map(
-            lambda t: C("halt", t[0], **{t[1]: t[2]})),
+    # (explicit weights: see hist.weighted)
+    interlock = weighted(
+        (3, st.tuples(st.sampled_from(SPIN), v).map(lambda t: C("tool_on", *t))),
+        (3, st.just(C("tool_off"))),
+        (2, st.tuples(st.sampled_from(POWER), v).map(lambda t: C("power_on", *t))),
+        (2, st.just(C("power_off"))),
+        (2, st.sampled_from(["mist", "flood"]).map(lambda m: C("coolant_on", m))),
+        (2, st.just(C("coolant_off"))),
+        (2, st.tuples(st.sampled_from(["manual", "automatic"]), st.integers(1, 99)).map(
+            lambda t: C("tool_change", *t))),
+        (2, st.sampled_from(HALTS).map(lambda m: C("halt", m))),
+        (2, st.tuples(st.sampled_from(["wait-for-bed", "wait-for-hotend", "wait-for-chamber"]),
+                      st.sampled_from(["S", "R", "s", "r"]), sv).map(
+            lambda t: C("halt", t[0], **{t[1]: t[2]}))),
         # a plain halt with a time word (Marlin: M0 S<seconds> / P<ms>): the word
         # is neither a temperature nor a spindle speed
-        st.tuples(st.sampled_from(["pause", "optional-pause", "end-with-reset",
-                                   "pallet-exchange", "wait-for-motion"]),
-                  st.sampled_from(["S", "R", "P", "s"]), v).map(
-            lambda t: C("halt", t[0], **{t[1]: t[2]})),
-        st.booleans().map(lambda b: C("pause", b)),
-        st.booleans().map(lambda b: C("stop", b)),
-        st.just(C("wait")),
-        st.tuples(st.sampled_from(["jam", "limit hit"]), st.booleans()).map(
-            lambda t: C("emergency_halt", *t)),
+        (1, st.tuples(st.sampled_from(["pause", "optional-pause", "end-with-reset",
+                                       "pallet-exchange", "wait-for-motion"]),
+                      st.sampled_from(["S", "R", "P", "s"]), v).map(
+            lambda t: C("halt", t[0], **{t[1]: t[2]}))),
+        (1, st.booleans().map(lambda b: C("pause", b))),
+        (1, st.booleans().map(lambda b: C("stop", b))),
+        (1, st.just(C("wait"))),
+        (1, st.tuples(st.sampled_from(["jam", "limit hit"]), st.booleans()).map(
+            lambda t: C("emergency_halt", *t))),
     )
-    opts = [interlock, interlock, interlock]
+    pairs = [(6, interlock)]
     if moves:
         params = st.fixed_dictionaries({}, optional={
             "F": v, "S": v, "E": sv, "A": sv, "p": sv})
@@ -87,9 +89,9 @@ def call_strategy(moves=True, extras=True):
         sa = st.tuples(st.sampled_from(["set_axis", "auto_home"]), axes,
                        st.fixed_dictionaries({}, optional={"E": sv, "A": sv})).map(
             lambda t: C(t[0], **dict(t[1], **t[2])))
-        opts += [mv, mv, pr, sa]
+        pairs += [(4, mv), (1, pr), (1, sa)]
     if extras:
-        misc = st.one_of(
+        misc = equally(
             st.sampled_from(["absolute", "relative"]).map(lambda m: C("set_distance_mode", m)),
             v.map(lambda x: C("set_feed_rate", x)),
             v.map(lambda x: C("set_tool_power", x)),
@@ -117,8 +119,8 @@ def call_strategy(moves=True, extras=True):
             st.tuples(st.sampled_from(["circle", "polyline", "spline"]), st.integers(0, 4)).map(
                 lambda t: {"op": "aborted_path", "shape": t[0], "after": t[1]}),
         )
-        opts += [misc, misc]
-    return st.one_of(*opts)
+        pairs += [(4, misc)]
+    return weighted(*pairs)
 
 
 # ---------------------------------------------------------------------------
